@@ -163,3 +163,17 @@ Theorem C17_equal_stable_no_completed_insert : forall fixed tr s s',
   brun fixed s tr = Some s' -> b_vins s' = b_vins s -> completes_in_run fixed s tr = false.
 Proof. exact equal_counter_no_completed_insert. Qed.
 Print Assumptions C17_equal_stable_no_completed_insert.
+
+(** ** The trace monitor used on real runs (tie T3): which writes to a published version word are accepted *)
+From Yk Require Import VersionMonitorProofs.
+
+(** an accepted lock CAS takes a free lock; among the other accepted writes the only one that releases a
+    held lock is [unlock] applied to the word current at that instant, and none takes the lock *)
+Theorem C17_monitor_sound : forall cur nw,
+  (ver_write_ok cur nw true = true -> get_locked cur = false /\ nw = set_locked cur true /\ get_locked nw = true) /\
+  (ver_write_ok cur nw false = true -> get_locked cur = true -> get_locked nw = false -> nw = unlock cur) /\
+  (ver_write_ok cur nw false = true -> get_locked cur = false -> get_locked nw = false).
+Proof.
+  intros cur nw. split; [exact (monitor_lock cur nw) | split; [exact (monitor_release cur nw) | exact (monitor_no_steal cur nw)]].
+Qed.
+Print Assumptions C17_monitor_sound.
